@@ -64,6 +64,9 @@ pub enum Op {
     Fill { start: Sel, n: u8, val: Val },
     /// n gets of one key (seek-triggered compaction needs > 100)
     Hammer(Sel, u8),
+    /// n fresh iterators, each seeking to one key (every new iterator samples the first entry it
+    /// reads for seek-triggered compaction; > 100 samples use up a file's allowance)
+    IterHammer(Sel, u8),
     Reopen(Cfg),
     Snap,
     Release(Sel),
